@@ -630,6 +630,11 @@ type bscStep struct {
 // switches with growing and shrinking validator sets; before every honest header come the headers of all
 // validators that are ineligible because they sealed recently.
 func buildBSC(rng *rand.Rand, heights int) (*bsctypes.ClientState, *bsctypes.ConsensusState, []bscStep) {
+	return buildBSCAt(rng, heights, 1650000000)
+}
+
+// buildBSCAt is buildBSC with the anchor's timestamp given.
+func buildBSCAt(rng *rand.Rand, heights int, t uint64) (*bsctypes.ClientState, *bsctypes.ConsensusState, []bscStep) {
 	type val struct {
 		key  *ecdsa.PrivateKey
 		addr common.Address
@@ -689,7 +694,6 @@ func buildBSC(rng *rand.Rand, heights int) (*bsctypes.ClientState, *bsctypes.Con
 		return h
 	}
 	recents := map[uint64]common.Address{}
-	t := uint64(1650000000)
 	a0 := inturn(cur, anchor)
 	h0 := mk(anchor, hash32("parent"), pend, t, a0, cur)
 	recents[anchor] = a0
